@@ -39,7 +39,18 @@ def gen_handler():
         m = re.compile(pat, re.S).search(hay, start)
         return m.start() if m else -1
 
-    p_enable = pos(fire, r"for\s*\(\s*item\s*=\s*conn->handlers\s*;[^)]*\)\s*item->enabled\s*=\s*1")
+    # the enabling loop, written in place or as a static helper `f(list)` whose whole body is that loop
+    helpers = []
+    for m in re.finditer(r"\bstatic\s+void\s+(\w+)\s*\(\s*xmpp_handlist_t\s*\*\s*(\w+)\s*\)\s*\{(.*?)\n\}", text, re.S):
+        b = re.sub(r"\s+", "", m.group(3))
+        if re.fullmatch(r"(xmpp_handlist_t\*(\w+);)?for\((\w+)=%s;\3;\3=\3->next\)\{?\3->enabled=1;\}?" % re.escape(m.group(2)), b):
+            helpers.append(m.group(1))
+    enable_pat = r"for\s*\(\s*item\s*=\s*conn->handlers\s*;[^)]*\)\s*item->enabled\s*=\s*1"
+    if helpers:
+        enable_pat += r"|\b(?:%s)\s*\(\s*conn->handlers\s*\)" % "|".join(map(re.escape, helpers))
+    p_enable = pos(fire, enable_pat)
+    if p_enable < 0:
+        raise ExtractError("handler_fire_stanza: the loop enabling conn->handlers was not found")
     p_getid = pos(fire, r"xmpp_stanza_get_id\s*\(")
     if p_getid < 0:
         raise ExtractError("handler_fire_stanza: xmpp_stanza_get_id not found")
